@@ -30,6 +30,10 @@ CONSTANT Mutant    \* "none" | "plusinpath" (server decodes '+' in path segments
                    \* | "rewind" (a seekable upload source is rewound to its start after sniffing)
                    \* | "staticmemo" (one MatchedRoute shared by all requests of a parameter-free route: its consumer sticks)
                    \* | "decodedkeycache" (Context-level route cache keyed by method + DECODED path)
+                   \* | "formfromquery" (urlencoded form fields bound from request.Form = body values, then the URL's query values)
+                   \* | "truncateonerror" (an upload source that fails while it is copied: logged, the part and the request are completed)
+                   \* | "shortreadeof" (keep-alive body wrapper: the first short read is taken for the end of the response body)
+                   \* | "sharedbound" (the bound parameters of the untyped handler are one variable per operation, not per request)
 
 U == INSTANCE ClientURL WITH Variant <- "fixed"
 
@@ -165,6 +169,38 @@ Uploaded(src, sniffLen) ==
 
 UploadAgrees(src, sniffLen) == Uploaded(src, sniffLen) = Remaining(src.content, src.off)
 
+\* A source may FAIL (I/O error) once failat[1] of its remaining bytes have been read (failat = <<>>: it does not).  Whether the
+\* failing read is the sniffing one (io.ReadFull) or the copy (io.Copy), the pipe feeding the request body is closed with the
+\* error (logClose): the request cannot be completed and the caller is told.  -> [sent, bytes]
+SourceFails(src) == src.failat # <<>> /\ src.failat[1] < Len(Remaining(src.content, src.off))
+UploadOutcome(src, sniffLen) ==
+  IF ~SourceFails(src) THEN [sent |-> TRUE, bytes |-> Uploaded(src, sniffLen)]
+  ELSE IF Mutant = "truncateonerror" /\ (src.typed \/ src.failat[1] >= sniffLen)     \* the copy failed: log.Println(err); continue
+       THEN [sent |-> TRUE, bytes |-> SubSeq(Remaining(src.content, src.off), 1, src.failat[1])]
+       ELSE [sent |-> FALSE, bytes |-> <<>>]
+\* C04 for an upload: delivered as supplied, or not delivered at all (the caller gets an error) - never a success with other bytes
+UploadOutcomeOK(src, sniffLen) ==
+  LET o == UploadOutcome(src, sniffLen) IN
+  IF SourceFails(src) THEN ~o.sent ELSE o.sent /\ o.bytes = Remaining(src.content, src.off)
+
+---------------------------------------------------------------------------
+(* formData parameters and the URL's query.  The query of the request URL  *)
+(* carries the operation's query parameters and the STATIC parameters of   *)
+(* the client's base path / path pattern; any of them may be named like a  *)
+(* form field.  Fields of an urlencoded body are bound from the body       *)
+(* (request.PostForm), of a multipart body from MultipartForm.Value: the   *)
+(* query is no source for them.  kvs = Seq([k, v]).                        *)
+RECURSIVE ValuesOf(_, _)
+ValuesOf(kvs, name) == IF kvs = <<>> THEN <<>>
+                       ELSE (IF Head(kvs).k = name THEN <<Head(kvs).v>> ELSE <<>>) \o ValuesOf(Tail(kvs), name)
+FormSource(media, body, query, name) ==
+  IF Mutant = "formfromquery" /\ media = "urlencoded" THEN ValuesOf(body, name) \o ValuesOf(query, name)     \* request.Form
+  ELSE ValuesOf(body, name)
+\* untypedParamBinder.bindValue: arrays take every value, scalars the last one
+BindFormValue(kind, vals) == IF kind = "multi" \/ vals = <<>> THEN vals ELSE << vals[Len(vals)] >>
+FormReceived(media, kind, body, query, name) == BindFormValue(kind, FormSource(media, body, query, name))
+FormAgrees(media, kind, body, query, name) == FormReceived(media, kind, body, query, name) = BindFormValue(kind, ValuesOf(body, name))
+
 ---------------------------------------------------------------------------
 (* ONE server, MANY exchanges.  A server (middleware.Context + router) is  *)
 (* built from a configuration and then serves a sequence of requests; a    *)
@@ -228,6 +264,14 @@ Serve(mem, cfg, r) ==
        IN IF ~b.ok THEN [mem |-> sc.mem, out |-> Refused]
           ELSE [mem |-> sc.mem, out |-> [handled |-> lr.route.op, params |-> lr.route.params, body |-> b.v]]
 
+\* CONCURRENT requests of one operation.  The untyped operation handler (newRoutableUntypedAPI) binds the request
+\* (`bound, r, validation = context.BindAndValidate(r, route)`) and then invokes the application's handler with `bound`;
+\* both variables belong to the request being served.  cells = where `bound` lives: one cell per request in flight
+\* (faithful), or ONE cell per operation (mutant "sharedbound").
+BoundCell(r) == IF Mutant = "sharedbound" THEN 0 ELSE r            \* cell 0: the one variable of the operation
+BindInto(cells, r, v) == [cells EXCEPT ![BoundCell(r)] = v]           \* the assignment after BindAndValidate
+HandlerGets(cells, r) == cells[BoundCell(r)]                          \* oh.Handle(bound)
+
 \* C04 for one call of a session, whatever was served before
 SessionCallInScope(c) == (\A n \in DOMAIN c.vals : InScope("path", c.vals[n])) /\ (c.media # "none" => BodyInScope(c.media, c.body))
 SessionCallAgrees(c, out) == out.handled = c.op /\ out.params = c.vals /\ out.body = c.body
@@ -238,6 +282,14 @@ SessionCallAgrees(c, out) == out.handled = c.op /\ out.params = c.vals /\ out.bo
 \* redirects (the client's http.Client follows 3xx) - named deviation RedirectsFollowed
 StatusInScope(code) == code >= 200 /\ code <= 599 /\ ~(code >= 300 /\ code <= 399 /\ code # 304)
 BodyAllowed(code) == code # 204 /\ code # 304
+
+\* A handler may deliver its body in several pieces (writes followed by Flush); the client reads them as they arrive, so a
+\* Read may return fewer bytes than asked long before the end.  With Runtime.EnableConnectionReuse() the body is wrapped by
+\* drainingReadCloser, which passes every read through and only notes whether the end was reached.
+BodyDelivered(pieces, reuse) ==
+  IF Mutant = "shortreadeof" /\ reuse /\ Len(pieces) > 1 THEN pieces[1]      \* seenEOF on the first short read, then io.EOF
+  ELSE U!Flatten(pieces)
+BodyIntact(pieces, reuse) == BodyDelivered(pieces, reuse) = U!Flatten(pieces)
 
 ResponseSeen(h) ==     \* h = [code, hdrs : Seq([k, vs]), body]
   [code |-> h.code, hdrs |-> [i \in 1..Len(h.hdrs) |-> [k |-> h.hdrs[i].k, vs |-> [j \in 1..Len(h.hdrs[i].vs) |-> Transport("header", h.hdrs[i].vs[j])]]],
@@ -252,7 +304,8 @@ ResponseSeen(h) ==     \* h = [code, hdrs : Seq([k, vs]), body]
 (*      id of a small upload source is the content of the underlying file  *)
 (*      and off the position it was handed over at - the spec takes what   *)
 (*      remains; of a large one the digest of the remaining bytes, off 0)  *)
-(*      media = "json" | "text" | "urlencoded" | "multipart" | "none"      *)
+(*      media = "json" | "text" | "urlencoded" | "multipart" | "none";     *)
+(*      fails (files): the upload source fails before its end              *)
 (*  o = the observation: [err, handled_op, received : Seq([name, vs]),     *)
 (*      handler : [code, hdrs, body], seen : [code, hdrs, body]]           *)
 ValueLoc(p) == IF p.loc \in {"file", "body"} THEN "multiform" ELSE p.loc    \* files and bodies travel verbatim
@@ -284,14 +337,20 @@ ResponseAgrees(o) ==
   /\ \A i \in 1..Len(o.handler.hdrs) : HdrSeen(o, o.handler.hdrs[i].k) = o.handler.hdrs[i].vs
   /\ o.seen.body = o.handler.body
 
+\* a call one of whose upload sources fails cannot be completed: the caller must be told (named deviation
+\* FailedSourceFailsTheCall; what the server made of the aborted request is not constrained)
+CallFails(c) == \E i \in 1..Len(c.params) : c.params[i].fails
+
 ExchangeOK(c, o) ==
   CallInScope(c) =>
-    /\ ~o.err
-    /\ RequestAgrees(c, o)
-    /\ ResponseInScope(o.handler) => ResponseAgrees(o)
+    IF CallFails(c) THEN o.err
+    ELSE /\ ~o.err
+         /\ RequestAgrees(c, o)
+         /\ ResponseInScope(o.handler) => ResponseAgrees(o)
 
 WhyExchange(c, o) ==
-  IF o.err THEN "client-error"
+  IF CallFails(c) THEN "success-although-upload-source-failed"
+  ELSE IF o.err THEN "client-error"
   ELSE IF o.handled_op # c.op THEN "other-operation-or-none-invoked"
   ELSE IF ~RequestAgrees(c, o)
        THEN LET i == CHOOSE j \in 1..Len(c.params) : Received(o, c.params[j].name) # << SuppliedVs(c.params[j]) >>
